@@ -28,17 +28,20 @@ CONSTANTS MaxN,        \* validator set sizes 1..MaxN
           Whats,       \* kinds of signed content in use, "ok" included
           MaxExtra,    \* a list has at most n + MaxExtra items
           Ops,         \* enabled forms, subset of {"list", "vector"}
-          MaxOver      \* a proof vector has 0..n+MaxOver slots
+          MaxOver,     \* a proof vector has 0..n+MaxOver slots
+          MinN         \* smallest validator set: 0 = the certified block designates no voters (the genesis block, or a
+                       \* nil / empty validator list): only the empty list is a certificate then
 
 None == [who |-> -1, what |-> "none"]
 Sig(n) == [who : 0..n, what : Whats]
 
-VARIABLES n,       \* size of the validator set designated by the parent
+VARIABLES ctx,     \* how the proof context came to be: "new" (NewProofContext(keys)) or "restored" (from its bytes, as a node reads it from state)
+          n,       \* size of the validator set designated by the parent
           cert,    \* list form: Seq(Sig(n))
           proof,   \* vector form: Seq(Sig(n) \cup {None}) of any width 0..n+MaxOver
           done,    \* the behaviour has ended with a verification
           hist
-vars == <<n, cert, proof, done, hist>>
+vars == <<ctx, n, cert, proof, done, hist>>
 
 \* the key recovered from a signature checked against the target: a validator index, or 0 (unrelated key)
 Recovered(s) == IF s.what = "ok" THEN s.who ELSE 0
@@ -74,43 +77,67 @@ VerifyProofRes(nn, p) == ScanVec(nn, p, 1, 0)
 
 -----------------------------------------------------------------------------
 Widths(nn) == IF "vector" \in Ops THEN 0..(nn + MaxOver) ELSE {nn}
-Init == /\ n \in 1..MaxN /\ cert = <<>> /\ proof \in {[i \in 1..w |-> None] : w \in Widths(n)}
+Init == /\ ctx \in (IF "vector" \in Ops THEN {"new", "restored"} ELSE {"new"}) /\ n \in MinN..MaxN /\ cert = <<>> /\ proof \in {[i \in 1..w |-> None] : w \in Widths(n)}
         /\ done = FALSE /\ hist = <<>>
 
 \* NewCommitVoteList(msgs...): one more precommit signature goes into the list
 AppendItem(s) == /\ ~done /\ Len(cert) < n + MaxExtra
              /\ cert' = Append(cert, s)
-             /\ UNCHANGED <<n, proof, done, hist>>
+             /\ UNCHANGED <<ctx, n, proof, done, hist>>
 \* CommitVoteSet.VerifyBlock(block, validators)
 VerifyList == /\ ~done /\ done' = TRUE
               /\ hist' = Append(hist, [op |-> "verifylist", n |-> n, cert |-> cert,
                                        res |-> VerifyListRes(n, cert)])
-              /\ UNCHANGED <<n, cert, proof>>
+              /\ UNCHANGED <<ctx, n, cert, proof>>
 \* BTPProof.Add(part) of a part claiming index idx / slot idx of a serialized proof
 AddPart(idx, s) == /\ ~done /\ idx \in 1..Len(proof) /\ proof' = [proof EXCEPT ![idx] = s]
-                   /\ UNCHANGED <<n, cert, done, hist>>
+                   /\ UNCHANGED <<ctx, n, cert, done, hist>>
 \* BTPProofContext.VerifyPart(hash, part)
 VerifyPart(idx, s) == /\ ~done /\ done' = TRUE
                       /\ \A i \in 1..Len(proof) : proof[i] = None     \* stateless: explored once per context
-                      /\ hist' = Append(hist, [op |-> "verifypart", n |-> n, idx |-> idx, part |-> s,
+                      /\ hist' = Append(hist, [op |-> "verifypart", ctx |-> ctx, n |-> n, idx |-> idx, part |-> s,
                                                res |-> PartRes(n, idx, s)])
-                      /\ UNCHANGED <<n, cert, proof>>
+                      /\ UNCHANGED <<ctx, n, cert, proof>>
 \* BTPProofContext.Verify(hash, proof)
 VerifyProof == /\ ~done /\ done' = TRUE
-               /\ hist' = Append(hist, [op |-> "verifyproof", n |-> n, proof |-> proof,
+               /\ hist' = Append(hist, [op |-> "verifyproof", ctx |-> ctx, n |-> n, proof |-> proof,
                                         res |-> VerifyProofRes(n, proof)])
-               /\ UNCHANGED <<n, cert, proof>>
+               /\ UNCHANGED <<ctx, n, cert, proof>>
+
+\* BTPProofContext.NewProofPart(hash, wallet): a validator gets a part at its own index, anybody else an error (res 0)
+NewPart(who) == /\ ~done /\ done' = TRUE
+                /\ \A i \in 1..Len(proof) : proof[i] = None
+                /\ hist' = Append(hist, [op |-> "newpart", ctx |-> ctx, n |-> n, who |-> who,
+                                         res |-> IF who \in 1..n THEN who ELSE 0])
+                /\ UNCHANGED <<ctx, n, cert, proof>>
+\* NewProofFromBytes / NewProofPartFromBytes of bytes that are not an encoding of a proof / a part: an error, and
+\* nothing to verify
+DecodeGarbage(kind, defect) ==
+                /\ ~done /\ done' = TRUE
+                /\ \A i \in 1..Len(proof) : proof[i] = None
+                /\ hist' = Append(hist, [op |-> "decode", ctx |-> ctx, n |-> n, kind |-> kind, defect |-> defect,
+                                         res |-> "malformed"])
+                /\ UNCHANGED <<ctx, n, cert, proof>>
+
+\* NewCommitVoteSetFromBytes of bytes that are not an encoding of a vote list: no vote set, nothing to accept
+DecodeGarbageList(defect) ==
+                /\ ~done /\ done' = TRUE /\ cert = <<>>
+                /\ hist' = Append(hist, [op |-> "decodelist", n |-> n, defect |-> defect, res |-> "malformed"])
+                /\ UNCHANGED <<ctx, n, cert, proof>>
 
 Next == \/ "list" \in Ops /\ \E s \in Sig(n) : AppendItem(s)
         \/ "list" \in Ops /\ VerifyList
+        \/ "list" \in Ops /\ \E d \in {"trunc", "scalar", "baditem"} : DecodeGarbageList(d)
         \/ "vector" \in Ops /\ \E i \in 1..(n + MaxOver), s \in Sig(n) : AddPart(i, s)
         \/ "vector" \in Ops /\ \E i \in 0..(n + 1), s \in Sig(n) : VerifyPart(i, s)
         \/ "vector" \in Ops /\ VerifyProof
+        \/ "vector" \in Ops /\ \E w \in 0..n : NewPart(w)
+        \/ "vector" \in Ops /\ \E k \in {"proof", "part"}, d \in {"trunc", "scalar", "badsig"} : DecodeGarbage(k, d)
 Spec == Init /\ [][Next]_vars
 
 -----------------------------------------------------------------------------
 (* Properties.  The statements of C05 and C29, independent of the loops above. *)
-TypeOK == /\ n \in 1..MaxN /\ cert \in Seq(Sig(n)) /\ Len(cert) <= n + MaxExtra
+TypeOK == /\ n \in MinN..MaxN /\ cert \in Seq(Sig(n)) /\ Len(cert) <= n + MaxExtra
           /\ Len(proof) \in Widths(n) /\ \A i \in 1..Len(proof) : proof[i] \in Sig(n) \cup {None}
 
 \* validators that really signed the target in a list
@@ -118,7 +145,7 @@ GoodSigners(c) == {c[i].who : i \in {j \in 1..Len(c) : c[j].what = "ok" /\ c[j].
 ListStatement(nn, c) ==
   /\ \A i \in 1..Len(c) : c[i].what = "ok" /\ c[i].who \in 1..nn      \* nothing forged, foreign, wrong-target
   /\ \A i, j \in 1..Len(c) : i # j => c[i].who # c[j].who            \* no duplicated signer
-  /\ 3 * Len(c) > 2 * nn                                            \* more than two thirds
+  /\ (3 * Len(c) > 2 * nn \/ (nn = 0 /\ c = <<>>))                  \* more than two thirds; no voters: no votes
 \* validators whose own signature of the decision sits at their own index
 GoodSlots(nn, p) == {i \in (1..nn) \cap (1..Len(p)) : p[i] # None /\ p[i].what = "ok" /\ p[i].who = i}
 ProofStatement(nn, p) ==
@@ -135,9 +162,12 @@ ProofAcceptIffStatement ==
 PartAcceptIffOwnIndex ==
   [][(Stepped /\ Last.op = "verifypart") =>
        ((Last.res = "ok") <=> (Last.idx \in 1..Last.n /\ Last.part.what = "ok" /\ Last.part.who = Last.idx))]_vars
+\* a part made by the context carries its maker's own index, so it verifies there
+NewPartOwnIndex ==
+  [][(Stepped /\ Last.op = "newpart" /\ Last.res # 0) => PartRes(Last.n, Last.res, [who |-> Last.who, what |-> "ok"]) = "ok"]_vars
 \* ... and an accepted certificate is backed by more than 2n/3 distinct validators that signed the target
 ListQuorum ==
-  [][(Stepped /\ Last.op = "verifylist" /\ Last.res = "ok") => 3 * Cardinality(GoodSigners(Last.cert)) > 2 * Last.n]_vars
+  [][(Stepped /\ Last.op = "verifylist" /\ Last.res = "ok" /\ Last.n > 0) => 3 * Cardinality(GoodSigners(Last.cert)) > 2 * Last.n]_vars
 ProofQuorum ==
   [][(Stepped /\ Last.op = "verifyproof" /\ Last.res = "ok") =>
         3 * Cardinality(GoodSlots(Last.n, Last.proof)) > 2 * Last.n]_vars
